@@ -199,7 +199,7 @@ def run(ctx):
     # ------------------------------------------------------------------ 2. pump model + replay
     pump, lead2 = tlc_with_lead(ctx, "Pump", "Pump.cfg", "PumpEmit.cfg", {"MaxLen": "4" if quick else "5"}, "pump-model",
                                 workers=min(ctx.workers, 8))
-    pdeep, lp = tlc_with_lead(ctx, "Pump", "Pump.cfg", "PumpEmit.cfg", {"Kinds": "DeepKinds", "MaxLen": "6" if quick else "7"},
+    pdeep, lp = tlc_with_lead(ctx, "Pump", "Pump.cfg", "PumpEmit.cfg", {"Kinds": "DeepKinds", "MaxLen": "5" if quick else "7"},
                               "pump-model-deep", workers=min(ctx.workers, 8))
     lead2 += lp
     pump_all = os.path.join(ctx.work, "pump_beh.jsonl")
